@@ -109,6 +109,15 @@ Theorem C05_isolation :
 Proof. exact isolation. Qed.
 Print Assumptions C05_isolation.
 
+(* limits are per schema NAME, compared byte by byte: for ANY two different names (equal up to case or not)
+   a request under one never touches the limiter of the other *)
+Theorem C05_schemas_isolated_exact_names : forall w c n1 n2 r,
+  n1 <> n2 -> caches (fst (acquire w c n1 r)) c n2 = caches w c n2.
+Proof.
+  intros w c n1 n2 r H. destruct C05_isolation as (_ & I & _). apply I. intros Q. injection Q as Q. exact (H Q).
+Qed.
+Print Assumptions C05_schemas_isolated_exact_names.
+
 (* over EVERY history of resize / limit-strategy change / type change / delete / re-add / acquire / pinned
    release (a schema carries its strategy; only a TYPE change starts a new limiter and a new epoch):
    admitted only while fewer than M of the requests admitted since the schema last became
@@ -158,6 +167,19 @@ Example C05_reconfig_nonvacuous :
 Proof.
   split; [|vm_compute; reflexivity].
   repeat constructor; simpl; try tauto; unfold two32; try lia.
+Qed.
+
+(* "Batch" (max 1) and "batch" (max 3) are two schemas: exhausting the first rejects only its own requests, the
+   second still admits three; deleting "Batch" leaves "batch" limited *)
+Example C05_exact_names_nonvacuous :
+  let ops := [WSync "A" [("Batch", SMif 1 0); ("batch", SMif 3 0)]; WAcq "A" "Batch" 1; WAcq "A" "Batch" 2;
+              WAcq "A" "batch" 3; WAcq "A" "batch" 4; WAcq "A" "batch" 5; WAcq "A" "batch" 6;
+              WSync "A" [("batch", SMif 3 0)]; WAcq "A" "batch" 7; WAcq "A" "Batch" 8] in
+  Forall wf_op ops /\ "Batch" <> "batch" /\
+  map snd (model_hist world0 ops) = [0; 2; 1; 2; 2; 2; 1; 0; 1; 2].
+Proof.
+  split; [|split; [discriminate|vm_compute; reflexivity]].
+  repeat constructor; simpl; try tauto; unfold two32; try lia; intros [H|[]]; discriminate.
 Qed.
 
 Local Close Scope string_scope.
